@@ -59,7 +59,7 @@ RULE = ('histories of 1-30 packets (65% of the sACN ones as whole datagrams - AC
         'small}, terminate/preview/rev2 flags, start codes, frame lengths {0,1,2,512,513,small}, malformed DMP '
         'header/vector/increment/short PDUs, plus scripted scenarios (7th/8th source, priority hand-over both '
         'ways, expiry boundary, full sequence sweep); Art-Net from <= 4 addresses (incl. the wildcard address), '
-        'HTP and LTP (with SetMergeMode switches mid-history; plus whole-node histories over all four output ports with coinciding port addresses, a merge mode per port, ports enabled/disabled/re-addressed and net/subnet changed in mid-history, compared port by port), gaps around 10 s, length-field/data-length mismatches; plus static-look histories: a sender repeating a byte-identical frame (sACN: with advancing sequence numbers) in short gaps summing past 10 s / 2.5 s next to a concurrently changing sender, then a late third (sACN: further/7th) sender. Compared after every packet: '
+        'HTP and LTP (with SetMergeMode switches mid-history; plus whole-node histories over all four output ports with coinciding port addresses, a merge mode per port, ports enabled/disabled/re-addressed and net/subnet changed in mid-history, compared port by port, with the transmissions of the node made to fail and recover in mid-history; and multi-universe sACN histories: one inflator with three universes, the same CIDs on several of them, SetHandler again / RemoveHandler + SetHandler in mid-history, compared per universe), gaps around 10 s, length-field/data-length mismatches; plus static-look histories: a sender repeating a byte-identical frame (sACN: with advancing sequence numbers) in short gaps summing past 10 s / 2.5 s next to a concurrently changing sender, then a late third (sACN: further/7th) sender. Compared after every packet: '
         'callback count, priority byte, registered buffer (SPEC) and the tracked-source tables (internal). '
         'After every packet the model driver also evaluates the extracted text-level specification (TextSpec/TextCheck: text_out, xstep, verdict; Art-Net: atext_step) and prints SPEC key txt = buffer agrees with the property text at every packet, or departs from it only in a classified way (known= hand-down gap / stale after discard / sequence window forgotten); histories with more than six live top-priority sources are not judged (text silent on which six). non-trivial = at least one callback and at least two distinct output buffers in the trace; '
         'distinct = distinct model output line')
@@ -383,11 +383,47 @@ def gen_artn(rng):
         elif r < 0.21:
             cur['subnet'] = rng.choice([0, 2, 15, rng.randrange(16)])
             steps.append('s:%d' % cur['subnet'])
-        elif r < 0.24:
+        elif r < 0.30:
+            steps.append('f:%d' % rng.randrange(2))      # the node's own SendTo calls fail / succeed again
+        elif r < 0.33:
             cur['net'] = rng.choice([0, 4, 127, 128 + 4])
             steps.append('n:%d' % cur['net'])
             cur['net'] &= 127
     return 'artn ' + ','.join(steps)
+
+
+def gen_sacnm(rng):
+    """one DMPE131Inflator with several registered universes, the same CIDs sending on several of them,
+    and API calls in mid-history: SetHandler again (same / new buffer), RemoveHandler + SetHandler"""
+    steps = []
+    regd = set()
+    for u in rng.sample([1, 2, 3], rng.choice([2, 2, 3])):
+        steps.append('r:%d:0' % u); regd.add(u)
+    ncid = rng.choice([1, 2, 3, 4])
+    seqs = {}
+    prios = {c: rng.choice([100, 100, 100, 50, 200]) for c in range(1, ncid + 1)}
+    fr = lambda: rframe(rng, rng.choice([1, 2, 3, 4]))
+    n = rng.choice([6, 10, 16, 24])
+    for _ in range(n):
+        r = rng.random()
+        if r < 0.08:
+            u = rng.choice([1, 2, 3]); steps.append('r:%d:%d' % (u, rng.randrange(2))); regd.add(u)
+        elif r < 0.12:
+            u = rng.choice([1, 2, 3]); steps.append('x:%d' % u); regd.discard(u)
+            if rng.random() < 0.6:
+                steps.append('r:%d:0' % u); regd.add(u)
+        else:
+            c = rng.randrange(1, ncid + 1)
+            u = rng.choice([1, 2, 3, 1, 2, rng.choice([3, 4])])
+            k = (c, u)
+            seqs[k] = (seqs.get(k, rng.choice([0, 250])) + rng.choice([1, 1, 1, 1, 0, -3, 2])) & 255
+            if rng.random() < 0.08:
+                prios[c] = rng.choice([50, 99, 100, 101, 200])
+            flags = 2 if rng.random() < 0.08 else (1 if rng.random() < 0.04 else 0)
+            dt = small_gap(rng) if rng.random() < 0.85 else rng.choice(GAPS[2:5])
+            steps.append(sacn_step(dt, c, prios[c] if rng.random() < 0.9 else rng.choice(PRIOS), seqs[k], fr(),
+                                   univ=u, flags=flags))
+    return 'sacnm %d %s' % (rng.randrange(2), ','.join(steps))
 
 
 def to_wire(rng, payload, dgram=True):
@@ -432,8 +468,10 @@ def gen_cases(rng, tier):
             yield to_wire(rng, c, dgram=rng.random() < 0.8) if rng.random() < 0.65 else c
         elif r < 0.84:
             yield gen_art(rng)
-        elif r < 0.92:
+        elif r < 0.89:
             yield gen_artn(rng)
+        elif r < 0.94:
+            yield gen_sacnm(rng)
         else:
             yield gen_art_static(rng)
 
@@ -442,6 +480,9 @@ def nontrivial(payload, md):
     outs = [v for k, v in md.items() if k.startswith('o') and k[1:].isdigit()]
     if not outs:
         return False
+    if payload.startswith('sacnm '):
+        cb = any(seg.startswith('1|') for v in outs for seg in v.split('/'))
+        return cb and len(set(outs)) >= 2
     if payload.startswith('artn '):
         data = [v for v in outs if not v.startswith('c|')]
         cb = any(seg.startswith('1.') for v in data for seg in v.split('/'))
